@@ -239,7 +239,7 @@ class Check(DiffCheck):
     partial_note = ('cross-vCPU interleavings are covered by the theorems over the fine-grained model only; the tie to the code is single-vCPU (E2) '
                     '+ a non-deterministic OS-thread stress for destroy-after-wait (E4 not built)')
     case_timeout = 1500
-    lockset_rules = {10, 11, 12, 13, 14, 15, 21, 22}
+    lockset_rules = {10, 11, 12, 13, 14, 15, 21, 22, 24}
 
     def __init__(self):
         self.runner_ml = e2lib.make_runner(self.id, ['ocaml/E2_lib.ml', 'ocaml/C02_run.ml'])
